@@ -260,11 +260,25 @@ pub fn beat() {
 /// Called by engines when they start executing the code under test on a case, so that a hang can be turned into
 /// a replay record; `clear_current_case` marks machinery phases (a hang there is never a verdict).
 pub fn set_current_case(v: Value) {
+    if PUBLISH_ALL.load(Ordering::Relaxed) && !REPLAYING.load(Ordering::Relaxed) {
+        // the re-run that localises a hang or a crash: the case is also written out before the code under test is
+        // called, so that the coordinator knows it even if the process is aborted (allocation failure, stack overflow)
+        let stdout = std::io::stdout();
+        let mut l = stdout.lock();
+        let _ = writeln!(l, "CASE {}", v);
+        let _ = l.flush();
+    }
     if let Ok(mut g) = CUR_CASE.lock() {
         *g = Some(v);
     }
 }
 pub fn clear_current_case() {
+    if PUBLISH_ALL.load(Ordering::Relaxed) && !REPLAYING.load(Ordering::Relaxed) {
+        let stdout = std::io::stdout();
+        let mut l = stdout.lock();
+        let _ = writeln!(l, "CASE null");
+        let _ = l.flush();
+    }
     if let Ok(mut g) = CUR_CASE.lock() {
         *g = None;
     }
@@ -275,6 +289,7 @@ pub fn clear_current_case() {
 /// same group of batches once with `VERIF_PUBLISH=1`; then every case is published before the code under test is
 /// called, the hang recurs, and the watchdog can name the case.
 static PUBLISH_ALL: AtomicBool = AtomicBool::new(false);
+static REPLAYING: AtomicBool = AtomicBool::new(false);
 #[inline]
 pub fn publish_case(f: impl FnOnce() -> Value) {
     if PUBLISH_ALL.load(Ordering::Relaxed) {
@@ -288,8 +303,6 @@ pub fn unpublish_case() {
         clear_current_case();
     }
 }
-/// set in replay mode: a hang while replaying a recorded hang is the violation again
-static REPLAY_HANG: Mutex<Option<(String, String)>> = Mutex::new(None);
 
 /// CPU seconds (user + system) consumed by this process so far
 fn cpu_seconds() -> f64 {
@@ -329,14 +342,6 @@ fn start_watchdog() {
                 let out = json!({"hang": true, "batch": CUR_BATCH.load(Ordering::Relaxed), "heartbeat": now, "case": case,
                                  "cpu_seconds_without_heartbeat": burnt, "wall_seconds_without_heartbeat": wall,
                                  "by": if burnt >= CASE_CPU_LIMIT_S { "cpu" } else { "wall" }});
-                if let Some((prop, path)) = REPLAY_HANG.lock().ok().and_then(|g| g.clone()) {
-                    if burnt >= CASE_CPU_LIMIT_S {
-                        println!("VIOLATION property={} replay={}", prop, path);
-                        println!("  the code under test did not return after {} s of CPU time on the recorded case", CASE_CPU_LIMIT_S);
-                        let _ = std::io::stdout().flush();
-                        std::process::exit(1);
-                    }
-                }
                 println!("HANG {}", out);
                 let _ = std::io::stdout().flush();
                 std::process::exit(3);
@@ -376,7 +381,8 @@ pub fn worker_main(engine: &dyn Engine, ctx: &Ctx, lo: usize, hi: usize) {
 pub enum WorkerOutcome {
     Done(Report),
     Hang(Value),
-    Crash(String),
+    /// message, and (publish mode) the case that was running when the process died
+    Crash(String, Option<Value>),
 }
 
 fn run_worker(ctx: &Ctx, lo: usize, hi: usize, publish: bool) -> WorkerOutcome {
@@ -394,10 +400,15 @@ fn run_worker(ctx: &Ctx, lo: usize, hi: usize, publish: bool) -> WorkerOutcome {
         .output();
     let out = match out {
         Ok(o) => o,
-        Err(e) => return WorkerOutcome::Crash(format!("cannot spawn worker: {}", e)),
+        Err(e) => return WorkerOutcome::Crash(format!("cannot spawn worker: {}", e), None),
     };
     let text = String::from_utf8_lossy(&out.stdout);
+    let mut last_case: Option<Value> = None;
     for line in text.lines() {
+        if let Some(j) = line.strip_prefix("CASE ") {
+            last_case = serde_json::from_str::<Value>(j).ok().filter(|v| !v.is_null());
+            continue;
+        }
         if let Some(j) = line.strip_prefix("REPORT ") {
             if let Ok(v) = serde_json::from_str::<Value>(j) {
                 return WorkerOutcome::Done(Report::from_json(&v));
@@ -411,7 +422,7 @@ fn run_worker(ctx: &Ctx, lo: usize, hi: usize, publish: bool) -> WorkerOutcome {
     }
     let err = String::from_utf8_lossy(&out.stderr);
     let tail: String = err.chars().rev().take(600).collect::<String>().chars().rev().collect();
-    WorkerOutcome::Crash(format!("worker for batches {}..{} ended with {:?} without a report; stderr tail: {}", lo, hi, out.status, tail))
+    WorkerOutcome::Crash(format!("worker for batches {}..{} ended with {:?} without a report; stderr tail: {}", lo, hi, out.status, tail), last_case)
 }
 
 // ---------------------------------------------------------------------------------------------
@@ -472,8 +483,24 @@ pub fn run_engine(engine: &dyn Engine, ctx: &Ctx) -> RunResult {
                         match run_worker(ctx, lo, hi, true) {
                             WorkerOutcome::Hang(v2) if !v2["case"].is_null() => r = WorkerOutcome::Hang(v2),
                             WorkerOutcome::Hang(_) => {}
-                            WorkerOutcome::Done(_) => r = WorkerOutcome::Crash(format!("group {}: a hang did not recur when the group was run again with published cases", g)),
-                            WorkerOutcome::Crash(m) => r = WorkerOutcome::Crash(m),
+                            WorkerOutcome::Done(_) => r = WorkerOutcome::Crash(format!("group {}: a hang did not recur when the group was run again with published cases", g), None),
+                            WorkerOutcome::Crash(m, c) => r = WorkerOutcome::Crash(m, c),
+                        }
+                    }
+                }
+                // a worker that died without a report (abort on allocation failure, stack overflow, kill): run the group
+                // again with published cases; if it dies again, the last case written out is the one that killed it
+                let first_crash = match &r {
+                    WorkerOutcome::Crash(m, None) if !m.starts_with("cannot spawn") => Some(m.clone()),
+                    _ => None,
+                };
+                if let Some(m1) = first_crash {
+                    if hang_verdicts && localised.fetch_add(1, Ordering::SeqCst) < 4 {
+                        match run_worker(ctx, lo, hi, true) {
+                            WorkerOutcome::Crash(m2, Some(c)) => r = WorkerOutcome::Crash(m2, Some(c)),
+                            WorkerOutcome::Crash(m2, None) => r = WorkerOutcome::Crash(format!("{} (again, outside any case: {})", m1, m2), None),
+                            WorkerOutcome::Done(_) => r = WorkerOutcome::Crash(format!("{} (did not recur when the group was run again)", m1), None),
+                            WorkerOutcome::Hang(v2) => r = WorkerOutcome::Hang(v2),
                         }
                     }
                 }
@@ -496,7 +523,16 @@ pub fn run_engine(engine: &dyn Engine, ctx: &Ctx) -> RunResult {
                     failures.push(format!("watchdog: no progress ({} s CPU / {} s wall limit): {}", CASE_CPU_LIMIT_S, CASE_WALL_LIMIT_S, v));
                 }
             }
-            Some(WorkerOutcome::Crash(m)) => failures.push(m),
+            Some(WorkerOutcome::Crash(m, Some(c))) => {
+                if hang_verdicts {
+                    let shown: String = c.to_string().chars().take(400).collect();
+                    let case = json!({"hang": {"case": c, "crash": m, "by": "crash"}, "group_lo": bounds[g].0, "group_hi": bounds[g].1});
+                    report.violation(&ctx.prop, engine.name(), case, format!("the code under test killed the process (no panic that could be caught: allocation failure, stack overflow or abort) on the case {}", shown));
+                } else {
+                    failures.push(m);
+                }
+            }
+            Some(WorkerOutcome::Crash(m, None)) => failures.push(m),
             None => failures.push(format!("group {} was never run", g)),
         }
     }
@@ -731,12 +767,53 @@ pub fn replay_main(engine_for: &dyn Fn(&str) -> Option<Box<dyn Engine>>, path: &
     start_watchdog();
     let mut case = v["case"].clone();
     if case.get("hang").is_some() {
-        // a recorded hang: replay the case that was running; not returning is the violation again
-        case = case["hang"]["case"].clone();
-        if let Ok(mut g) = REPLAY_HANG.lock() {
-            *g = Some((prop.clone(), path.to_string()));
+        // a recorded hang or crash: the case that was running is replayed in a child process; not returning (the
+        // child's watchdog ends it) or dying is the violation again
+        let inner = json!({"property": prop, "engine": v["engine"], "case": case["hang"]["case"], "profile": v["profile"]});
+        let dir = verif_dir().join("replays");
+        let _ = std::fs::create_dir_all(&dir);
+        let tmp = dir.join(format!(".inner-{}.json", std::process::id()));
+        if std::fs::write(&tmp, inner.to_string()).is_err() {
+            eprintln!("cannot write {}", tmp.display());
+            return 2;
         }
+        let exe = match std::env::current_exe() {
+            Ok(e) => e,
+            Err(_) => return 2,
+        };
+        let out = std::process::Command::new(exe).arg("replay").arg(&tmp).arg("--quiet").output();
+        let _ = std::fs::remove_file(&tmp);
+        return match out {
+            Err(e) => {
+                eprintln!("cannot run the replay child: {}", e);
+                2
+            }
+            Ok(o) => match o.status.code() {
+                Some(0) => {
+                    if !quiet {
+                        println!("replay of {}: the recorded case returns now and property {} holds on it", path, prop);
+                    }
+                    0
+                }
+                Some(1) => {
+                    if !quiet {
+                        println!("VIOLATION property={} replay={}", prop, path);
+                        println!("  the recorded case returns now, with a wrong result");
+                    }
+                    1
+                }
+                Some(2) => 2,
+                other => {
+                    if !quiet {
+                        println!("VIOLATION property={} replay={}", prop, path);
+                        println!("  the code under test again did not return on the recorded case (child ended with {:?}: 3 = no progress within {} s of CPU time, none = killed)", other, CASE_CPU_LIMIT_S);
+                    }
+                    1
+                }
+            },
+        };
     }
+    REPLAYING.store(true, Ordering::Relaxed);
     PUBLISH_ALL.store(true, Ordering::Relaxed);
     if case.is_object() && case.get("__engine").is_none() {
         case["__engine"] = v["engine"].clone();
